@@ -8,7 +8,8 @@
 //                           waiter owns the future under test as its internal future, further ones are plain callback
 //                           awaiters subscribed without await_ready)
 //          9 ...  schedule
-// result lines: "tid 1 ret" resolver, "tid 2 done kind datum runs parked ready" waiter (ready = the slot held the ready marker when it went on), "11 tid ready 0" async frame destroyed,
+// result lines: "12 tid t 0" (engines uptr, cnt; value calls): the call consumed its argument / constructed an instance,
+//               "tid 1 ret" resolver, "tid 2 done kind datum runs parked ready" waiter (ready = the slot held the ready marker when it went on), "11 tid ready 0" async frame destroyed,
 //               "9 ready kind datum" final state of the future, "10 live 0" instance balance
 #define VH_DEFINE_NEW
 #include "ctl.h"
@@ -27,10 +28,11 @@ struct test_exc {
 
 struct counted {
     static inline std::atomic<long> live{0};
+    static inline thread_local long t_made = 0;   // instances constructed by this thread
     long v;
-    counted(long x) : v(x) { live++; }
-    counted(const counted &o) : v(o.v) { live++; }
-    counted(counted &&o) : v(o.v) { live++; }
+    counted(long x) : v(x) { live++; t_made++; }
+    counted(const counted &o) : v(o.v) { live++; t_made++; }
+    counted(counted &&o) : v(o.v) { live++; t_made++; }
     ~counted() { live--; }
 };
 
@@ -236,6 +238,7 @@ static void run_case(const vh::Case &cs) {
         std::vector<long> res(n, -1);
         std::vector<Seen> seen(n);
         std::vector<long> frame(n, -1);
+        std::vector<long> trace(n, -1);
         std::atomic<int> resolvers_done{0};
         int nres = 0;
         for (auto &d : decl)
@@ -246,7 +249,21 @@ static void run_case(const vh::Case &cs) {
             if (d.role == 1) {
                 fns.push_back([&, i, d] {
                     switch (d.kind) {
-                        case 0: res[i] = traits<T>::set(*prom, d.datum); break;
+                        case 0:
+                            // "losers leave no trace" on the caller's side: a move-only argument is consumed, an instance
+                            // of an instance-counted type is constructed (from the forwarded argument), only by the winner
+                            if constexpr (std::is_same_v<T, std::unique_ptr<int>>) {
+                                auto up = std::make_unique<int>((int)d.datum);
+                                res[i] = (*prom)(std::move(up));
+                                trace[i] = up ? 0 : 1;
+                            } else if constexpr (std::is_same_v<T, counted>) {
+                                long before = counted::t_made;
+                                res[i] = (*prom)(d.datum);   // counted is built in place from the long
+                                trace[i] = counted::t_made > before ? 1 : 0;
+                            } else {
+                                res[i] = traits<T>::set(*prom, d.datum);
+                            }
+                            break;
                         case 1: res[i] = (*prom)(std::make_exception_ptr(test_exc{d.datum})); break;
                         case 2: res[i] = (*prom)(drop); break;
                         case 3: {
@@ -361,6 +378,8 @@ static void run_case(const vh::Case &cs) {
                 vh::print_obs({(long)i, 1, res[i]});
             }
         }
+        for (int i = 0; i < n; i++)
+            if (trace[i] >= 0) vh::print_obs({12, (long)i, trace[i], 0});
         for (int i = 0; i < n; i++)
             if (frame[i] >= 0) vh::print_obs({11, (long)i, frame[i], 0});
         ctl::finish_case_or_restart(c);
